@@ -23,7 +23,8 @@ META = {
         'kind\'s lexical form (non-finite numbers n:INF/-INF/NaN); non-string kinds map to JSON null/true/false/array/'
         'object.  (D3) keys written by the dumper itself (ver, name) are reported.  Also: dates/times formatted with strftime are modelled with %Y as 1-4 digits (unpadded); the list of grids is never filtered by truthiness; SortableDict.items() conformance (shared with C16.D5).  Not decided: independent-reader '
         'execution; six-decimal closeness.'
-        ' Also (D1): dump() compares the mode with the MODE constants only after _parse_mode.'),
+        ' Also (D1): dump() compares the mode with the MODE constants only after _parse_mode.'
+        ' Also (D4): the stamp written is isoformat() of the value itself (no conversion / re-assembly).  (D2) no scalar writer hands a re-wrapped value to the writer of another kind.'),
     'rule_text': 'obligations = shape facts + kinds x versions (inclusion in the spec language)',
     'trusted_base': ['json.dumps emits valid JSON for dict/list/str/bool/None'],
 }
@@ -45,6 +46,7 @@ def run(ctx):
     _shape(ctx)
     from . import _dump
     _dump.mode_sanitised(ctx, 'C06.D1', 'dumper')
+    _rewrapped(ctx)
     _zinc.version_threading(ctx, 'C06.D2', 'jsondumper')
     for version in ('3.0', '2.0'):
         for kind in _zinc.kinds_for(version):
@@ -52,11 +54,52 @@ def run(ctx):
     # date-time payloads: the zone name written is one whose offset at that instant is the value's (shared with C17)
     from . import c17
     c17._timezone_name(ctx, ctx.model, rule='C06.D4')
+    # ... and the stamp written is isoformat() of the value itself, not of a converted / re-assembled one
+    c17._api(ctx, ctx.model, rule='C06.D4', only=('jsondumper',), conversions_only=True)
     # XStr payloads: hex digits / one-line standard base64 (XStr.data_to_string, datatypes.py)
     _zinc.xstr_codec(ctx, 'C06.D2')
     # the writers read metadata and columns through items(): keys must come with their own values (shared with C16.D5)
     from . import c16
     c16.mapping_overrides(ctx, ctx.model, rule='C06.D3')
+
+
+def _rewrapped(ctx):
+    """(D2) every value carries the prefix of ITS kind: the writer of one kind does not hand a re-wrapped value
+    (`XStr('Bin', v)`) to the writer of another kind -- hszinc's own reader may map it back, an independent reader
+    recovers the other kind."""
+    m = ctx.model
+    F_ = 'hszinc/jsondumper.py'
+    try:
+        ladder = m.func('jsondumper', 'dump_scalar', 'nested')
+        mod = m.mod('jsondumper')
+    except AnalysisError as e:
+        ctx.error('C06.D2', str(e))
+        return
+    routed = {}
+    for n in ast.walk(ladder):
+        if isinstance(n, ast.If) and isinstance(n.test, ast.Call) and norm(n.test.func) == 'isinstance' and len(n.test.args) == 2:
+            classes = [norm(x) for x in n.test.args[1].elts] if isinstance(n.test.args[1], ast.Tuple) else [norm(n.test.args[1])]
+            for b_ in n.body:
+                for r in ast.walk(b_):
+                    if isinstance(r, ast.Return) and isinstance(r.value, ast.Call) and isinstance(r.value.func, ast.Name):
+                        routed.setdefault(r.value.func.id, set()).update(classes)
+    n = 0
+    for fn in [x for x in mod.tree.body if isinstance(x, ast.FunctionDef) and x.name in routed]:
+        for c in ast.walk(fn):
+            if isinstance(c, ast.Call) and isinstance(c.func, ast.Name) and c.func.id in routed and c.func.id != fn.name and c.args \
+                    and isinstance(c.args[0], ast.Call) and norm(c.args[0].func) in routed[c.func.id] \
+                    and not (routed[c.func.id] & routed[fn.name]):
+                n += 1
+                ctx.violation('C06.D2', '%s::%s' % (F_, fn.name), norm(c),
+                              'a %s value is written by %s as `%s`: the JSON text carries the prefix of a %s (hszinc\'s own reader '
+                              'may map it back; an independent reader recovers a %s, not a %s)'
+                              % ('/'.join(sorted(routed[fn.name])), fn.name, norm(c)[:60], '/'.join(sorted(routed[c.func.id])),
+                                 '/'.join(sorted(routed[c.func.id])), '/'.join(sorted(routed[fn.name]))),
+                              'the writer of %s re-wraps the value as a %s and delegates to %s'
+                              % ('/'.join(sorted(routed[fn.name])), norm(c.args[0].func), c.func.id), file=F_, line=c.lineno, engine='E7')
+    ctx.count('scalar writers routed by the JSON ladder', len(routed))
+    if not n:
+        ctx.ob('C06.D2', 'no scalar writer re-wraps its value as another kind', True, F_)
 
 
 def _kind(ctx, kind, version):
